@@ -88,6 +88,8 @@ TrHandlerStart ==
 TrReaderFrame ==
     /\ IsEv("c.dispatch")
     /\ s2c # <<>> /\ Head(s2c).s = E.s
+    \* a message for a stream that is open on the client finds the stream's entry (logged: "none" when the table had none)
+    /\ (Head(s2c).k = "msg" /\ cph[E.s] = "streaming" /\ flipped[E.s]) => E.k # "none"
     /\ ReaderFrame(FALSE, FALSE, FALSE)
     /\ Adv /\ NoFlag
 
